@@ -293,7 +293,8 @@ class InterpreterBase:
             if not isinstance(str_key, str):
                 raise InvalidArguments('Key must be a string')
             return str_key
-        arguments, kwargs = self.reduce_arguments(cur.args, key_resolver=resolve_key, duplicate_key_error='Duplicate dictionary key: {}')
+        arguments, kwargs = self.reduce_arguments(cur.args, key_resolver=resolve_key, duplicate_key_error='Duplicate dictionary key: {}',
+                                                  expand_kwargs=False)
         assert not arguments
         return self._holderify({k: _unholder(v) for k, v in kwargs.items()})
 
@@ -615,6 +616,7 @@ class InterpreterBase:
                 args: mparser.ArgumentNode,
                 key_resolver: T.Callable[[mparser.BaseNode], str] = default_resolve_key,
                 duplicate_key_error: T.Optional[str] = None,
+                expand_kwargs: bool = True,
             ) -> T.Tuple[
                 T.List[InterpreterObject],
                 T.Dict[str, InterpreterObject]
@@ -637,7 +639,8 @@ class InterpreterBase:
                 raise InvalidArguments(duplicate_key_error.format(reduced_key))
             reduced_kw[reduced_key] = reduced_val
         self.argument_depth -= 1
-        final_kw = self.expand_default_kwargs(reduced_kw)
+        # 'kwargs: dict' stands for the entries of dict in a call; in a dictionary literal 'kwargs' is a key like any other
+        final_kw = self.expand_default_kwargs(reduced_kw) if expand_kwargs else reduced_kw
         return reduced_pos, final_kw
 
     def expand_default_kwargs(self, kwargs: T.Dict[str, T.Optional[InterpreterObject]]) -> T.Dict[str, T.Optional[InterpreterObject]]:
